@@ -308,8 +308,15 @@ class Reader:
                         sign = "+"
                     base = "d"
 
-        ioffset = int(offset)
-        iwidth = int(width)
+        try:
+            ioffset = int(offset)
+            iwidth = int(width)
+        except ValueError:
+            # e.g. more digits than int() accepts
+            raise dns.exception.SyntaxError("invalid $GENERATE modifier")
+        if iwidth > 255:
+            # no label, nor any other field, can be that wide
+            raise dns.exception.SyntaxError("$GENERATE width too large")
 
         if sign not in ["+", "-"]:
             raise dns.exception.SyntaxError(f"invalid offset sign {sign}")
